@@ -46,6 +46,8 @@ def model_layers(m):
 def categorize(key, anp):
     if key.endswith("__training__"):
         return "mode_flag"
+    if key.endswith("__requires_grad__"):
+        return "other:requires_grad flag of " + key[: -len(".__requires_grad__")]
     if key.endswith(("running_mean", "running_var", "num_batches_tracked")):
         return "bn_running"
     for p in anp:
@@ -60,6 +62,9 @@ def make_arg(torch, x, ik):
         return None, []
     if ik in ("plain", "nograd"):
         a = x.clone()
+        return a, [a]
+    if ik == "shape2":
+        a = torch.stack([x, 0.5 * x], dim=1)   # [n, 2, ...]: another event shape, same kind of values
         return a, [a]
     if ik == "view":
         n = x.shape[0]
@@ -90,6 +95,9 @@ def full_state(m):
     # the mode flag of every (sub-)module is state as well: a call must leave it as it found it
     for k, mod in m.named_modules():
         d[(k + "." if k else "") + "__training__"] = torch.tensor(float(mod.training))
+    # ... and so is whether a parameter is trainable
+    for k, p_ in m.named_parameters():
+        d[k + ".__requires_grad__"] = torch.tensor(float(p_.requires_grad))
     return d
 
 
@@ -157,9 +165,11 @@ class SessionDriver:
     def call(self, op, ik):
         torch = self.torch
         m, e = self.m, self.e
+        ik_arg = ik if (ik != "shape2" or e.has("anyshape")) else "plain"
+        self.ncalls = getattr(self, "ncalls", 0) + 1
         if op in ("forward", "log_prob", "transform_to_noise"):
-            a, w1 = make_arg(torch, self.x, ik)
-            c, w2 = make_arg(torch, self.c, ik)
+            a, w1 = make_arg(torch, self.x, ik_arg)
+            c, w2 = make_arg(torch, self.c, ik_arg if ik_arg != "shape2" else "plain")
             if op == "forward":
                 fn = lambda: m.forward(a, c) if c is not None else m.forward(a)
             elif op == "log_prob":
@@ -167,11 +177,11 @@ class SessionDriver:
             else:
                 fn = lambda: m.transform_to_noise(a, c) if c is not None else m.transform_to_noise(a)
         elif op == "inverse":
-            a, w1 = make_arg(torch, self.y, ik)
-            c, w2 = make_arg(torch, self.c, ik)
+            a, w1 = make_arg(torch, self.y, ik_arg)
+            c, w2 = make_arg(torch, self.c, ik_arg if ik_arg != "shape2" else "plain")
             fn = lambda: m.inverse(a, c) if c is not None else m.inverse(a)
         else:
-            c, w2 = make_arg(torch, self.c1, ik)
+            c, w2 = make_arg(torch, self.c1, ik_arg if ik_arg != "shape2" else "plain")
             w1 = []
             f = m.sample if op == "sample" else m.sample_and_log_prob
             # for the sampling operations the input kind also selects the number of draws per row
@@ -211,7 +221,22 @@ class SessionDriver:
             self.last = {}
         if out is not None and not writes:
             self.last[key] = out
-        return {"a": "Call", "op": op, "ik": ik, "argsChanged": bool(args_changed), "writes": sorted(writes), "repeat": rep, "raised": raised}
+        # every third evaluation-mode call of a deterministic operation is repeated on a freshly built model
+        # that received this model's state dict: same arguments, no history
+        twin = "na"
+        if out is not None and not m.training and op in ("forward", "inverse", "log_prob", "transform_to_noise") and self.ncalls % 3 == 0 and ik != "grad":
+            try:
+                tw = e.build(self.seed + 5000 + self.ncalls)
+                tw.load_state_dict({k: v.clone() for k, v in m.state_dict().items()})
+                tw.eval()
+                with torch.no_grad():
+                    a2 = a.detach().clone()
+                    c2 = c.detach().clone() if c is not None else None
+                    r2 = tensors_of(getattr(tw, op)(a2, c2) if c2 is not None else getattr(tw, op)(a2))
+                twin = "eq" if len(r2) == len(out) and all(x_.shape == y_.shape and torch.allclose(x_.detach(), y_, rtol=1e-5, atol=1e-6, equal_nan=True) for x_, y_ in zip(out, r2)) else "neq"
+            except Exception:  # noqa  (a model that cannot be rebuilt / reloaded is C15's business)
+                twin = "na"
+        return {"a": "Call", "op": op, "ik": ik, "argsChanged": bool(args_changed), "writes": sorted(writes), "repeat": rep, "raised": raised, "twin": twin}
 
     def apply(self, name, args):
         torch = self.torch
